@@ -198,6 +198,12 @@ def run_unit(unit, vacuity=False, extra_flags=(), use_cache=True, tag=""):
             "qual": f["qual"],
         }
 
+    for fi in gu.fn_infra:
+        r.obligations[fi["obligation"]] = {
+            "kind": "fn", "status": "undecided", "failures": [], "file": fi["file"], "lines": fi["lines"], "sha256": fi["sha256"],
+            "has_contract": True, "qual": fi["qual"], "undecided_reason": fi["reason"],
+        }
+
     if out is None:
         r.infra.append("verus produced no JSON result (rc=%s): %s" % (rc, " | ".join(rawerr[:5])[:600]))
         r.wall_s = time.time() - t0
